@@ -185,6 +185,9 @@ def index_methods(ctx):
         mask = np.array([ctx.rng.random() < 0.5 for _ in range(ix.shape[0])], dtype=bool)
         mapping = {int(v): ctx.rng.randrange(0, 5) for v in set(a.reshape(-1).tolist()) | {int(ix.common)}}
         m0, mk0 = dict(mapping), mask.copy()
+        # a caller's mapping that does not mention the common value (nor every present value): unmentioned values keep theirs
+        partial = {int(v): ctx.rng.randrange(5, 9) for v in sorted(set(a.reshape(-1).tolist()) - {int(ix.common)})[:2]}
+        partial0 = dict(partial)
         other = ix.copy()       # same content, another common value: forces a shift inside column_stack / append
         present = sorted(set(a.reshape(-1).tolist()))
         other.shift_common(ctx.rng.choice([v for v in present if v != ix.common] or [int(ix.common) + 1]))
@@ -192,6 +195,8 @@ def index_methods(ctx):
         calls += [("to_array", lambda: ix.to_array()), ("to_array(mapping)", lambda: ix.to_array(mapping=mapping)),
                   ("filtered", lambda: ix.filtered(mask, int(mask.sum()))), ("reindexed", lambda: ix.reindexed(mapping)),
                   ("reindexed(copy=False)", lambda: ix.reindexed(mapping, copy=False)),
+                  ("reindexed(partial mapping)", lambda: ix.reindexed(partial)),
+                  ("reindexed(partial mapping, assume_unique)", lambda: ix.reindexed(partial, assume_unique=True)),
                   ("common_rowids", lambda: ix.common_rowids(*([0] if nd == 2 else []))),
                   ("items(force)", lambda: list(ix.items(force=True))), ("to_dict(force)", lambda: ix.to_dict(force=True)),
                   ("column_stack", lambda: column_stack([ix, ix.copy()], new_common=int(ix.common) + 1)),
@@ -221,6 +226,9 @@ def index_methods(ctx):
     if nd <= 2 and I.snapshot(other) != other_before:
         ctx.oracle_fail("an index operation changed an operand other than its receiver", {"index": I.to_json(ix), "other": I.to_json(other)},
                         cls="C17-index-mutated")
+    if nd <= 2 and (partial != partial0 or list(partial) != list(partial0)):
+        ctx.oracle_fail("iindex.reindexed changed the mapping it was given: %s became %s" % (partial0, partial), {"index": I.to_json(ix)},
+                        cls="C17-input-mutated")
     if nd <= 2 and (mapping != m0 or not np.array_equal(mask, mk0)):
         ctx.oracle_fail("an index method changed its mapping / mask argument", {"index": I.to_json(ix)}, cls="C17-input-mutated")
     if nd == 2 and prec != p0:
